@@ -442,7 +442,16 @@ func (f *framing) ruleFetchReturns(rule string, o fetchOpts) {
 				hiOK := sl.Low == nil && sl.High != nil && f.A.Lin(sl.High).Equal(f.A.LenOf(sl.X).AddConst(-1))
 				var push ssa.Instruction
 				for _, p := range pushes {
-					if instrDominates(p, r) && p.Block() == r.Block() {
+					if !instrDominates(p, r) {
+						continue
+					}
+					// paired with this exit: no other return can follow the push
+					rr := r
+					q := pathQuery{goal: func(i ssa.Instruction) bool {
+						x, ok := i.(*ssa.Return)
+						return ok && x != rr
+					}}
+					if path, _ := q.search(p.Block(), instrIndex(p)); path == nil {
 						push = p
 					}
 				}
@@ -608,7 +617,8 @@ func (f *framing) ruleHelperPure(rule string) bool {
 					if !ok1 || !ok2 || p+l > 40 || x.Call.Args[0] != ssa.Value(buf) {
 						ok = false
 					}
-				} else {
+				} else if !pureOfArgs(P, fn, buf, x, 0) {
+					// another module function: fine if it is a function of its (buffer-free) arguments only
 					ok = false
 				}
 			}
@@ -618,8 +628,11 @@ func (f *framing) ruleHelperPure(rule string) bool {
 					ok = false
 				}
 				if fa, isFA := x.X.(*ssa.FieldAddr); isFA {
-					_ = fa // receiver fields are not read by the helper today; any read makes it state dependent
-					ok = false
+					// fields of a local value (a struct built here) are not state; receiver or
+					// parameter fields would make the helper state dependent
+					if _, local := root(fa.X).(*ssa.Alloc); !local {
+						ok = false
+					}
 				}
 			}
 		case *ssa.Slice:
@@ -634,6 +647,67 @@ func (f *framing) ruleHelperPure(rule string) bool {
 		c.Lemmas = append(c.Lemmas, "L-helper-pure: getMessageLengthAndType depends only on bytes 0..4 of its argument (premises re-verified on this run)")
 	}
 	return ok
+}
+
+// pureOfArgs: the call passes neither the buffer nor anything derived from it
+// by reference, and the callee (transitively, within the module) reads no
+// mutable package state, stores to nothing but its own locals and calls only
+// such functions or reviewed external ones: its result depends on its argument
+// values alone.
+func pureOfArgs(P *Prog, fn *ssa.Function, buf ssa.Value, call *ssa.Call, depth int) bool {
+	if call != nil {
+		for _, a := range call.Call.Args {
+			if root(a) == buf {
+				return false
+			}
+		}
+	}
+	if depth > 4 || fn.Blocks == nil {
+		return false
+	}
+	pure := true
+	eachInstr(fn, func(ins ssa.Instruction) {
+		switch x := ins.(type) {
+		case *ssa.Store:
+			if _, local := root(x.Addr).(*ssa.Alloc); !local {
+				pure = false
+			}
+		case *ssa.UnOp:
+			if x.Op == token.MUL {
+				if g, isG := x.X.(*ssa.Global); isG && !globalIsInitOnly(P, g) {
+					pure = false
+				}
+				if x.Op == token.ARROW {
+					pure = false
+				}
+			}
+		case *ssa.MapUpdate, *ssa.Send, *ssa.Go, *ssa.Defer, *ssa.Select:
+			pure = false
+		case *ssa.Call:
+			if _, isB := x.Call.Value.(*ssa.Builtin); isB {
+				return
+			}
+			g := x.Call.StaticCallee()
+			if g == nil {
+				pure = false
+				return
+			}
+			if P.InModule(g) {
+				if g != fn && !pureOfArgs(P, g, nil, nil, depth+1) {
+					pure = false
+				}
+				return
+			}
+			full := calleeFullName(g)
+			if _, ok := noPanicAllow[full]; !ok && !pkgNoPanic(g, full) {
+				pure = false
+			}
+			if strings.HasPrefix(full, "log/slog.") || strings.HasPrefix(full, "time.Now") {
+				// logging and the clock do not feed the result; accepted
+			}
+		}
+	})
+	return pure
 }
 
 // ruleExactCount: the framer hands the decoder exactly L+6 bytes and the
@@ -1586,6 +1660,10 @@ func (f *framing) ruleRejectionSitesOf(rule string, helperOnly bool) {
 			}
 		}
 		if kind == "" {
+			if f.A.Infeasible(r.Block()) {
+				c.OK(rule, label+":unreachable", r.Pos(), "defensive exit that can never be taken (its guard contradicts what is known at that point)")
+				continue
+			}
 			c.Fail(rule, label+":unlisted-rejection", r.Pos(), "refuted", "the single-frame decoder rejects input for a reason that is not one of {empty, preamble, reserved bits, zero length, incomplete, CRC}: some valid frame is not recognised")
 			continue
 		}
@@ -1635,6 +1713,10 @@ func (f *framing) ruleRejectionSitesOf(rule string, helperOnly bool) {
 			}
 		}
 		if kind == "" {
+			if f.A.Infeasible(r.Block()) {
+				c.OK(rule, label+":unreachable", r.Pos(), "defensive exit that can never be taken (its guard contradicts what is known at that point)")
+				continue
+			}
 			c.Fail(rule, label+":unlisted-rejection", r.Pos(), "refuted", "the leader helper rejects for a reason other than {short, preamble, reserved bits, zero length}")
 			continue
 		}
@@ -1687,6 +1769,10 @@ func (f *framing) ruleRejectionSitesOf(rule string, helperOnly bool) {
 			}
 		}
 		if kind == "" {
+			if f.A.Infeasible(r.Block()) {
+				c.OK(rule, label+":unreachable", r.Pos(), "defensive exit that can never be taken (its guard contradicts what is known at that point)")
+				continue
+			}
 			c.Fail(rule, label+":unlisted-rejection", r.Pos(), "refuted", "the CRC gate rejects for a reason other than a short frame or a CRC byte mismatch")
 			continue
 		}
